@@ -7,7 +7,7 @@ What is extracted (see lean/DefconModel/Classes.lean for the data types):
   class-related statements of ``__init__`` (``if p is None: p = C`` -> dflt, ``p = C`` -> force,
   ``self._a = p`` -> store) and the class-valued properties (``pointClass = property(_get_pointClass)``
   with ``return self._pointClass``);
-* every CREATION SITE in objects/, pens/, tools/representations.py and defcon/__init__.py: a call whose
+* every CREATION SITE in any module of Lib/defcon (tests excluded): a call whose
   callee is a stored class slot (``self._xClass(...)``), a class property (``self.pointClass(...)``),
   ``self.__class__(...)`` or the NAME of one of the 17 role classes / Font (hard-coded), together with the
   source of every ``*Class`` keyword argument; plus every ``isinstance(x, <class expr>)`` guard that names
@@ -26,7 +26,6 @@ ROLE_CLASSES = ["Glyph", "Contour", "Point", "Component", "Anchor", "Image", "Gu
 OWNER_CANDIDATES = {"Font", "LayerSet", "Layer", "Glyph", "Contour"}
 KNOWN = set(ROLE_CLASSES) | {"Font"}
 
-SCAN = ["objects", "pens", "tools/representations.py", "__init__.py"]
 
 
 class ExtractError(Exception):
@@ -402,17 +401,16 @@ class ModuleScan(object):
 
 def scan_repo(repo):
     root = os.path.join(repo, "Lib", "defcon")
+    if not os.path.isdir(os.path.join(root, "objects")):
+        raise ExtractError("missing source directory %s/objects" % root)
+    # every module of the package except its tests
     files = []
-    for s in SCAN:
-        p = os.path.join(root, s)
-        if os.path.isdir(p):
-            for fn in sorted(os.listdir(p)):
-                if fn.endswith(".py"):
-                    files.append(os.path.join(s, fn))
-        elif os.path.exists(p):
-            files.append(s)
-        else:
-            raise ExtractError("missing source file %s" % p)
+    for d, dirs, fns in os.walk(root):
+        dirs[:] = sorted(x for x in dirs if x not in ("test", "__pycache__"))
+        for fn in sorted(fns):
+            if fn.endswith(".py"):
+                files.append(os.path.relpath(os.path.join(d, fn), root))
+    files.sort()
     classes, sites = {}, []
     for rel in files:
         ms = ModuleScan(rel, open(os.path.join(root, rel)).read())
